@@ -210,6 +210,34 @@ def scan_memoisation(tree: ast.Module, settings_readers: set[str] | None = None)
                             glob.append(f"{x.func.id}() -> settings")
                 if reads or calls or glob:
                     out.append((f.lineno, f.name, f"@{name} over state {reads[:3] or calls[:3] or sorted(set(glob))[:3]}"))
+                    continue
+                # a memoised function that builds an array / list / dict hands the *same* object to every caller with equal arguments: whoever writes into
+                # what it was given (in place scaling of a grid) changes what everybody else - the library included - gets from then on
+                assigned: dict[str, ast.AST] = {}
+                for x in ast.walk(f):
+                    if isinstance(x, ast.Assign) and len(x.targets) == 1 and isinstance(x.targets[0], ast.Name):
+                        assigned[x.targets[0].id] = x.value
+
+                def mutable(v: ast.AST, depth: int = 0) -> str | None:
+                    if isinstance(v, (ast.List, ast.Dict, ast.Set, ast.ListComp, ast.DictComp, ast.SetComp)):
+                        return "a new container"
+                    if isinstance(v, ast.Call):
+                        fn_ = dotted(v.func) or ""
+                        if fn_.split(".")[0] in ("np", "numpy") or fn_ in ("array", "scalar", "list", "dict", "set"):
+                            return f"the result of {fn_}()"
+                        if isinstance(v.func, ast.Attribute) and v.func.attr in ("reshape", "ravel", "squeeze", "transpose", "astype", "copy", "flatten", "view"):
+                            return mutable(v.func.value, depth + 1)
+                    if isinstance(v, ast.Attribute) and v.attr == "T":
+                        return mutable(v.value, depth + 1)
+                    if isinstance(v, ast.BinOp):
+                        return mutable(v.left, depth + 1) or mutable(v.right, depth + 1)
+                    if isinstance(v, ast.Name) and v.id in assigned and depth < 4:
+                        return mutable(assigned[v.id], depth + 1)
+                    return None
+
+                kinds = [m for x in ast.walk(f) if isinstance(x, ast.Return) and x.value is not None for m in [mutable(x.value)] if m]
+                if kinds:
+                    out.append((f.lineno, f.name, f"@{name}, returning {kinds[0]} - an object every caller shares and may write into"))
     return out
 
 
@@ -227,8 +255,9 @@ def memoisation_rule(check, rule: str = "H8") -> None:
         for line, name, what in scan_memoisation(mod.tree, readers):
             hits.append((mod.relpath, line, name, what))
     for rel, line, name, what in hits:
-        check.violation(rule, f"{rel}/{name}", f"`{name}` is memoised ({what}): the cached result is keyed by the identity of mutable objects, so it "
-                        "goes stale when their contents change - results then depend on what was computed earlier", f"{rel}:{line}")
+        check.violation(rule, f"{rel}/{name}", f"`{name}` is memoised ({what}): " + ("the cached object is handed to every caller, and a write into it "
+                        "by one of them changes what all later calls return" if "every caller shares" in what else "the cached result is keyed by the identity of "
+                        "mutable objects, so it goes stale when their contents change - results then depend on what was computed earlier"), f"{rel}:{line}")
     if not hits:
         check.ok(rule, "package/memoisation", f"no state-dependent function is memoised ({len(check.program.modules)} modules scanned)")
     with open(os.path.join(VERIF, "selftest", "fixtures", "memoisation.py"), encoding="utf-8") as f:
